@@ -7,7 +7,8 @@
  * The registry is process-global: every behaviour runs in a fresh process.
  * The calls of the C face (boot, addbasic, addgeneric, addiface, addmeta,
  * byid, scan, byname, alias) are those of drv/typereg.c (typereg_cxx_part.c);
- * with w=1 the same request goes through the C++ wrapper of type_traits.
+ * with w=1 the same request goes through the C++ wrapper of type_traits
+ * (scan w=1: every identifier of the range through type_traits::get(int)).
  *
  * The driver judges nothing.  It makes values from a token v (POD: all bytes
  * v; tracked class: tok = v; pointer: &pointee[v]; span: (&elem[v], v);
@@ -132,6 +133,7 @@ struct answer {
 struct tops {
 	std::string tok;
 	const char *cat, *name;
+	const char *ck, *ct;  /* metatype pointer class: kind of object it points to, stored type */
 	size_t size;
 	int fixed;
 	int (*id)(bool);
@@ -170,6 +172,11 @@ template <typename T> struct pay {
 		if (!strcmp(via, "tmpl")) {
 			T x = codec<T>::make(v);
 			return metatype::create(x);
+		}
+		if (!strcmp(via, "default")) {
+			/* no source value: the element is made by the registered description of the type */
+			int id = type_properties<T>::id(true);
+			return id > 0 ? metatype::generic::create(id, 0) : 0;
 		}
 		holder<T>::tmp = codec<T>::make(v);
 		value val;
@@ -217,6 +224,7 @@ template <typename T> static void add_type(const char *tok, const char *cat, int
 {
 	tops t;
 	t.tok = tok; t.cat = cat; t.name = name; t.size = sizeof(T); t.fixed = fixed;
+	t.ck = ""; t.ct = "";
 	t.id = type_properties<T>::id;
 	t.traits = type_properties<T>::traits;
 	t.create = 0; t.get = 0; t.decode = 0; t.valassign = 0; t.valget = 0; t.propset = 0;
@@ -268,9 +276,18 @@ static void build_table(void)
 	/* metatype pointer classes */
 	add_type<metatype::generic *>("generic_ptr", "meta", 0, "generic", false);
 	g_tab.back().id = meta_id<metatype::generic *>::id;
+	g_tab.back().ck = "generic";
 	add_type<metatype::basic *>("basic_ptr", "meta", 0, "basic", false);
 	g_tab.back().id = meta_id<metatype::basic *>::id;
+	g_tab.back().ck = "basic";
 	add_type<metatype::value<pod<3> > *>("mvalue_pod3_ptr", "meta", 0, "", false);
+	g_tab.back().ck = "tmpl"; g_tab.back().ct = "pod3";
+	add_type<metatype::value<tracked> *>("mvalue_tracked_ptr", "meta", 0, "", false);
+	g_tab.back().ck = "tmpl"; g_tab.back().ct = "tracked";
+	add_type<metatype::value<int32_t> *>("mvalue_int32_ptr", "meta", 0, "", false);
+	g_tab.back().ck = "tmpl"; g_tab.back().ct = "int32";
+	add_type<metatype::value<double> *>("mvalue_double_ptr", "meta", 0, "", false);
+	g_tab.back().ck = "tmpl"; g_tab.back().ct = "double";
 	/* a family of distinct types to use the generic range up from C++ */
 	fill_reg<0, X06_NFILL>::add();
 }
@@ -415,6 +432,32 @@ static bool wrapper_step(struct cmd *c)
 		drv_end();
 		return true;
 	}
+	if (!strcmp(a, "scan")) {
+		/* every identifier of lo..hi looked up through type_traits::get(int) */
+		long lo = (long) drv_uint(c, "lo", 0), hi = (long) drv_uint(c, "hi", 0), id;
+		std::vector<long> hit;
+		for (id = lo; id <= hi; id++) if (type_traits::get((int) id)) hit.push_back(id);
+		drv_begin(c);
+		j_arr_open("list");
+		for (size_t k = 0; k < hit.size(); k++) {
+			const type_traits *t = type_traits::get((int) hit[k]);
+			const named_traits *nt = 0;
+			if (MPT_type_isInterface(hit[k])) nt = mpt_interface_traits(hit[k]);
+			else if (MPT_type_isMetaPtr(hit[k])) nt = mpt_metatype_traits(hit[k]);
+			j_item_obj_open();
+			j_int("id", hit[k]);
+			j_int("size", t->size > 0x3fffffff ? -1 : (long long) t->size);
+			j_int("managed", (t->init || t->fini) ? 1 : 0);
+			j_str("name", nt && nt->name ? nt->name : "");
+			j_int("ntype", nt ? (long long) nt->type : 0);
+			j_close();
+		}
+		j_arr_close();
+		drv_dbg();
+		j_int("count", (long long) hit.size());
+		drv_end();
+		return true;
+	}
 	if (!strcmp(a, "byname")) {
 		const char *text = tok_arg(c, "text");
 		if (!strcmp(text, "-")) text = "";
@@ -456,6 +499,8 @@ static void drv_step(struct cmd *c)
 			j_int("size", (long long) g_tab[k].size);
 			j_int("fid", g_tab[k].fixed);
 			j_str("name", g_tab[k].name);
+			j_str("ck", g_tab[k].ck);
+			j_str("ct", g_tab[k].ct);
 			j_int("pay", g_tab[k].create ? 1 : 0);
 			j_close();
 		}
@@ -538,7 +583,7 @@ static void drv_step(struct cmd *c)
 		drv_end();
 	}
 	else if (!strcmp(a, "get") || !strcmp(a, "getval") || !strcmp(a, "typeof") || !strcmp(a, "metaptr")
-	      || !strcmp(a, "addref") || !strcmp(a, "release") || !strcmp(a, "clone")) {
+	      || !strcmp(a, "asmeta") || !strcmp(a, "addref") || !strcmp(a, "release") || !strcmp(a, "clone")) {
 		metatype *m = g_slot[h].m;
 		if (!m) { skipped(c, "empty slot"); return; }
 		if (!strcmp(a, "get")) {
@@ -574,6 +619,16 @@ static void drv_step(struct cmd *c)
 			int r = m->convert(TypeMetaPtr, &p);
 			drv_begin(c);
 			j_int("self", r >= 0 && p == m ? 1 : 0);
+		}
+		else if (!strcmp(a, "asmeta")) {
+			/* the object asked for the pointer of a metatype class, under that class's identifier */
+			void *p = 0;
+			int id, r = -1;
+			if (!t || strcmp(t->cat, "meta")) { skipped(c, "no metatype pointer class"); return; }
+			if ((id = t->id(true)) > 0) r = m->convert(id, &p);
+			drv_begin(c);
+			j_str("ret", r >= 0 ? "ok" : "refused");
+			j_int("self", r >= 0 && p == (void *) m ? 1 : 0);
 		}
 		else if (!strcmp(a, "addref")) {
 			uintptr_t r = m->addref();
